@@ -11,7 +11,7 @@ from .wf import wf, denotes, snapshot, unchanged, install_poison
 
 OPTION_NAMES = ("retain_names", "retain_coefficients", "sort_graded", "sort_reverse")
 ALL_OPTIONS = [dict(zip(OPTION_NAMES, combo)) for combo in itertools.product([False, True], repeat=4)]
-BY = ["name", "index", "indeterminant", "symbols", "variable"]
+BY = ["name", "index", "indeterminant", "symbols", "variable", "indeterminant_zero_constant"]
 
 
 def options(inp):
@@ -23,6 +23,14 @@ def rand_input_poly(rng, shapes=SHAPES, names=None, **kw):
     """Polynomial spec; `retain` True keeps unused names / zero terms (the C01 space), None follows the global options."""
     spec = rand_poly(rng, shape=rng.choice(shapes), names=names, dtype=rng.choice(["int64", "int64", "float64"]), **kw)
     spec["retain"] = rng.choice([True, True, None])
+    if len(spec["names"]) > 1 and rng.random() < 0.25:
+        # the same polynomial with its indeterminates STORED in another order than the numeric one (names and exponent columns
+        # permuted together): positions count in this stored order
+        perm = list(range(len(spec["names"])))
+        while perm == sorted(perm):
+            rng.shuffle(perm)
+        spec["names"] = [spec["names"][k] for k in perm]
+        spec["exponents"] = [[row[k] for k in perm] for row in spec["exponents"]]
     return spec
 
 
@@ -38,6 +46,9 @@ def designate(p, d):
         return i, name
     if d["by"] == "indeterminant":
         return p.indeterminants[i], name
+    if d["by"] == "indeterminant_zero_constant":
+        # the indeterminate as the result of arithmetic that leaves a stored constant term equal to zero: (q + 1) - 1
+        return (p.indeterminants[i] + 1) - 1, name
     if d["by"] == "symbols":
         return numpoly.symbols(name), name
     k = int(name[1:])
@@ -81,8 +92,8 @@ def gen_derivative(rng):
        note="bounded: all 16 settings of retain_names/retain_coefficients/sort_graded/sort_reverse x polynomials with <=3 terms, "
             "<=3 indeterminates (unused names and all-constant arrays included), exponents<=3, 8 shapes up to (2,1,2), int64/float64, and a fifth "
             "of the inputs in int8/uint8/int16/uint16/int32/bool/float16/float32 with coefficients at the edge of the dtype's range; "
-            "1-3 differentiation variables per call, each given as name, index, poly.indeterminants[i], numpoly.symbols(name) or "
-            "numpoly.variable(k+1)[k]; result well-formed and equal to the successive formal partials of the oracle")
+            "1-3 differentiation variables per call, each given as name, index, poly.indeterminants[i], (poly.indeterminants[i]+1)-1, "
+            "numpoly.symbols(name) or numpoly.variable(k+1)[k]; a quarter of the multi-name inputs store their names in non-numeric order; result well-formed and equal to the successive formal partials of the oracle")
 def derivative_formal(inp):
     import numpoly
     install_poison()
